@@ -1,6 +1,6 @@
 #!/usr/bin/env python3
 """Growth families: parts of the specification that cover behaviour outside the twenty listed properties.
-usage: bin/grow <family> [quick|thorough]          (families: G01 LiveType, G02 Collections)
+usage: bin/grow <family> [quick|thorough]          (families: G01 LiveType, G02 Collections, G03 Request)
 
 They are run with the same three uses of TLC as the property checks - (M) model checking, (A) generation of
 histories, (B) a monitor that judges what the real code did - but they decide no listed property: nothing here
@@ -149,12 +149,70 @@ def g02(tier, seed):
         scr.cleanup()
 
 
+def one_shot(fam, mc, gen, drv_args, trace, need, what):
+    """A family of self-contained events: (M) model check, (A) cases from TLC, the driver, (B) the monitor."""
+    def run(tier, seed):
+        t0 = time.time()
+        scr = V.Scratch(fam)
+        try:
+            drv = V.build_driver()
+            mcs = [V.model_check(scr, mc[0], mc[1])]
+            g = V.generate(scr, gen[0], gen[1], "gen-0.out", seed=seed)
+            evdir = scr.sub("ev")
+            V.run_driver(drv, drv_args + ["-gen", g, "-out", evdir])
+            os.remove(g)
+            stats = json.load(open(os.path.join(evdir, "stats.json")))
+            missing = [c for c in need if not stats["classes"].get(c)]
+            if missing:
+                raise V.Infra("vacuous run: never observed: %s" % missing)
+            results = V.validate(scr, trace[0], trace[1], evdir)
+            if sum(r["consumed"] for r in results) != stats["events"]:
+                raise V.Infra("monitor did not consume every event")
+            known = observations(fam)
+            hits, div = {}, []
+            for r in results:
+                for (l, _, dev) in r["rejs"]:
+                    if dev in known:
+                        hits[dev] = hits.get(dev, 0) + 1
+                    else:
+                        div.append((r["chunk"], l, dev))
+            for dev, n in sorted(hits.items()):
+                V.log("OBSERVATION family=%s %s: %s (%d calls)" % (fam, dev, known[dev], n))
+            rc = 0
+            if div:
+                chunk, l, dev = div[0]
+                os.makedirs(os.path.join(V.out_root(), "replays"), exist_ok=True)
+                path = os.path.join(V.out_root(), "replays", "%s-divergence.json" % fam)
+                json.dump(dict(family=fam, deviation=dev, event=json.loads(V.line_of(chunk, l)),
+                               case=json.loads(V.line_of(chunk.replace("ev-", "case-"), l))), open(path, "w"), indent=1)
+                V.log("DIVERGENCE family=%s replay=%s" % (fam, path))
+                V.log("  %d recorded calls are not what %s" % (len(div), what))
+                rc = 1
+            ev = dict(family=fam, tier=tier, seed=seed, model_runs=mcs, events_judged=stats["events"], outcome_classes=stats["classes"],
+                      exhaustive=True, observations_hit=hits, divergences=len(div), wall_s=round(time.time() - t0, 1),
+                      cmd="bin/grow %s %s" % (fam, tier))
+            if not os.environ.get("VERIF_REPO"):
+                json.dump(ev, open(os.path.join(V.VERIF, "growth", fam + ".json"), "w"), indent=1)
+            if rc == 0:
+                V.log("OK family=%s tier=%s model_states=%d events=%d observations=%s wall=%.0fs" % (
+                    fam, tier, sum(m["states"] for m in mcs), stats["events"], hits, time.time() - t0))
+            return rc
+        finally:
+            scr.cleanup()
+    return run
+
+
+g03 = one_shot("G03", ("MC_Request", "MC_Request.cfg"), ("MC_Request", "Gen_Request.cfg"), ["req"],
+               ("Trace_Request", "Trace_Request.cfg"), ["schema:ok", "schema:err", "with-document", "nilschema:err"],
+               "the composition of the URL parser and the document reader gives")
+
+
 def V_t(tier, q, t):
     return q if tier == "quick" else t
 
 
 def main():
-    fams = dict(G01=g01, G02=g02)
+    fams = dict(G01=g01, G02=g02, G03=g03)
     if len(sys.argv) < 2 or sys.argv[1] not in fams:
         print(__doc__)
         return 2
